@@ -247,6 +247,7 @@ func (x *c13Terms) index(a, i *c13Term) *c13Term {
 	if v := x.mapLookup(a, i); v != nil {
 		return v
 	}
+	a, i = x.viewIndex(a, i)
 	if a.op == c13OpLit && a.keys == nil && i.op == c13OpConst && i.cv.Kind() == constant.Int {
 		if n, ok := constant.Int64Val(i.cv); ok && n >= 0 && int(n) < len(a.args) {
 			return a.args[n]
